@@ -223,6 +223,16 @@ func c06Programs(tier string) []*Spec {
 			out = append(out, sp)
 		}
 	}
+	// bars created in an order different from their ids (the harness passes BarID(index)): default priority is creation order
+	for _, order := range [][]int{{2, 0, 1}, {1, 2, 0}, {0, 2, 1}} {
+		sp := &Spec{Name: fmt.Sprintf("c06-creation-order-%d%d%d", order[0], order[1], order[2]), Refresh: "manual", Q: -1}
+		sp.Bars = []BarSpec{{Total: 1}, {Total: 1}, {Total: 1}}
+		for _, b := range order {
+			sp.Main = append(sp.Main, Op{K: "add", B: b})
+		}
+		sp.Main = append(sp.Main, Op{K: "refresh"}, Op{K: "refresh"}, Op{K: "refresh"}, Op{K: "refresh"}, Op{K: "incr", B: 0, N: 1}, Op{K: "incr", B: 1, N: 1}, Op{K: "incr", B: 2, N: 1}, Op{K: "refresh"}, Op{K: "refresh"})
+		out = append(out, sp)
+	}
 	// priority change from a client thread while another refreshes; auto refresh
 	for _, rf := range []string{"manual", "auto"} {
 		sp := &Spec{Name: "c06-concurrent", Refresh: rf, Q: -1}
